@@ -31,7 +31,7 @@ def jobs_for(tier):
     jobs = []
     if tier == 'quick':
         tpls = corpus.select(feats={'basic', 'ext', 'int', 'enum', 'str', 'set', 'bits', 'octets', 'of', 'from'},
-                             exclude={'manyadd', 'real', 'heavy'})
+                             exclude={'manyadd', 'real', 'heavy', 'spill'})
         tpls = [t for t in tpls if t['id'] not in ('combo-seqof-seq', 'combo-ext-nest', 'seq-opt')]
         # constraints applied to a shared referenced type at the member (compile-time sharing)
         tpls += [corpus.BY_ID[i] for i in ('shared-size', 'shared-range', 'combo-default-shared')]
